@@ -952,6 +952,51 @@ fn run_cipher_sweep(ctx: &mut Ctx) {
             };
             let ct = pkt.data().to_vec();
             let site = "crypto/sym/decryptor.rs StreamDecryptor::new (per-cipher dispatch, SEIPDv1)";
+            // CheckFirst with the limit exactly what the container holds behind its prefix (data + MDC),
+            // one octet less and one more: the limit decides admission, never what is checked
+            let fit = ct.len() - (bs + 2);
+            for (mi, max) in [fit, fit + 1, fit.saturating_sub(1)].into_iter().enumerate() {
+                let pat = pats[(ai + li + mi) % pats.len()];
+                let mode = || Seipdv1ReadMode::CheckFirst { max_message_size: max };
+                let real = v1_real(sym, mode(), &key, &ct, pat);
+                let input = |what: &str| format!("sym={sym:?} CheckFirst max_message_size={max} (container holds {fit}) n={n} pat={pat:?} what={what}");
+                if max >= fit {
+                    ctx.oracle("unmodified_decrypts", site, &input("honest"), real.1 && real.0 == pt, &format!("ok={} released={}", real.1, real.0.len()));
+                } else {
+                    ctx.oracle("checkfirst_releases_nothing", site, &input("honest, over the limit"), !real.1 && real.0.is_empty(), &format!("ok={} released={}", real.1, real.0.len()));
+                }
+                for (what, m) in mods(&ct, &mut rng) {
+                    // (the limit follows the modified container when its length changed)
+                    let fit_m = m.len().saturating_sub(bs + 2);
+                    let max_m = if mi == 0 { fit_m } else { max };
+                    let real = v1_real(sym, Seipdv1ReadMode::CheckFirst { max_message_size: max_m }, &key, &m, pat);
+                    let inp = format!("sym={sym:?} CheckFirst max_message_size={max_m} (container holds {fit_m}) n={n} pat={pat:?} what={what}");
+                    ctx.oracle("modified_never_clean_eof", site, &inp, !real.1, &format!("clean end after {} octets", real.0.len()));
+                    ctx.oracle("checkfirst_releases_nothing", site, &inp, real.0.is_empty(), &format!("released {} octets", real.0.len()));
+                    ctx.stat("sweep:v1:exact_fit");
+                }
+            }
+            // the packet-level API on the same container
+            {
+                let mut body = vec![1u8];
+                body.extend_from_slice(&ct);
+                let pkt_bytes = crate::wire::packet(18, &body);
+                for (what, m) in mods(&ct, &mut rng).into_iter().take(6) {
+                    let mut b = vec![1u8];
+                    b.extend_from_slice(&m);
+                    let pb = crate::wire::packet(18, &b);
+                    let r = guarded(|| match pgp::packet::PacketParser::new(&pb[..]).next() {
+                        Some(Ok(pgp::packet::Packet::SymEncryptedProtectedData(p))) => p.decrypt(&key, Some(sym), Seipdv1ReadMode::CheckFirst { max_message_size: m.len().saturating_sub(bs + 2) }).is_ok(),
+                        _ => false,
+                    });
+                    ctx.oracle("modified_never_clean_eof", "SymEncryptedProtectedData::decrypt (packet level, SEIPDv1)", &format!("sym={sym:?} n={n} what={what}"), r == Ok(false), &format!("{r:?}"));
+                }
+                let r = guarded(|| match pgp::packet::PacketParser::new(&pkt_bytes[..]).next() {
+                    Some(Ok(pgp::packet::Packet::SymEncryptedProtectedData(p))) => p.decrypt(&key, Some(sym), Seipdv1ReadMode::CheckFirst { max_message_size: fit }).ok(),
+                    _ => None,
+                });
+                ctx.oracle("unmodified_decrypts", "SymEncryptedProtectedData::decrypt (packet level, SEIPDv1)", &format!("sym={sym:?} n={n}"), matches!(&r, Ok(Some(o)) if *o == pt), "packet-level decrypt of the honest container");
+            }
             for streaming in [false, true] {
                 let mode = || if streaming { Seipdv1ReadMode::Streaming } else { Seipdv1ReadMode::CheckFirst { max_message_size: 1 << 20 } };
                 let pat = pats[(ai + li + streaming as usize) % pats.len()];
@@ -1014,6 +1059,45 @@ fn run_cipher_sweep(ctx: &mut Ctx) {
                         let real = v2_real(&q, &ct, pat);
                         ctx.oracle("modified_never_clean_eof", site, &input(what), !real.1, &format!("clean end after {} octets", real.0.len()));
                         ctx.oracle("released_is_prefix", site, &input(what), pt.starts_with(&real.0), &format!("released {} octets", real.0.len()));
+                    }
+                    // the packet-level API: the caller may name a cipher (or none); the header fields of the
+                    // packet are what was authenticated, whatever the caller says
+                    if li < 3 {
+                        let hdr_variants: Vec<(String, Vec<u8>)> = {
+                            let honest_hdr = vec![2u8, u8::from(sym), u8::from(aead), cs_octet];
+                            let mut v = vec![("honest".to_string(), honest_hdr.clone())];
+                            for (i, alt) in [(1usize, if sym == S::AES128 { 9u8 } else { 7 }), (1, 8), (2, if aead == AeadAlgorithm::Ocb { 3 } else { 2 }), (3, cs_octet + 1)] {
+                                let mut h = honest_hdr.clone();
+                                h[i] = alt;
+                                if h != honest_hdr {
+                                    v.push((format!("header octet {i} := {alt}"), h));
+                                }
+                            }
+                            v
+                        };
+                        for (what, hdr) in hdr_variants {
+                            let mut body = hdr.clone();
+                            body.extend_from_slice(&salt[..]);
+                            body.extend_from_slice(&ct);
+                            let pb = crate::wire::packet(18, &body);
+                            for named in [None, Some(sym), Some(S::AES128), Some(S::AES256)] {
+                                let r = guarded(|| match pgp::packet::PacketParser::new(&pb[..]).next() {
+                                    Some(Ok(pgp::packet::Packet::SymEncryptedProtectedData(pk))) => pk.decrypt(&key, named, Default::default()).ok(),
+                                    _ => None,
+                                });
+                                let inp = format!("{} what={what} caller names {named:?}", input("packet level"));
+                                if what == "honest" {
+                                    // (the honest packet: whatever decrypts, decrypts to the plaintext)
+                                    ctx.oracle("released_is_prefix", "SymEncryptedProtectedData::decrypt (packet level, SEIPDv2)", &inp, !matches!(&r, Ok(Some(o)) if *o != pt), "different plaintext");
+                                    if named.is_none() || named == Some(sym) {
+                                        ctx.oracle("unmodified_decrypts", "SymEncryptedProtectedData::decrypt (packet level, SEIPDv2)", &inp, matches!(&r, Ok(Some(o)) if *o == pt), &format!("{:?}", r.as_ref().map(|x| x.as_ref().map(|o| o.len()))));
+                                    }
+                                } else {
+                                    ctx.oracle("modified_never_clean_eof", "SymEncryptedProtectedData::decrypt (packet level, SEIPDv2)", &inp, matches!(&r, Ok(None)), &format!("{:?}", r.as_ref().map(|x| x.as_ref().map(|o| o.len()))));
+                                }
+                                ctx.stat("sweep:v2:packet_level");
+                            }
+                        }
                     }
                     for (what, m) in ms {
                         let real = v2_real(&p, &m, pat);
